@@ -40,7 +40,13 @@
 #include "awkward/array/Record.h"
 #include "awkward/array/EmptyArray.h"
 #include "awkward/array/None.h"
+#include "awkward/array/VirtualArray.h"
+#include "awkward/virtual/ArrayGenerator.h"
+#include "awkward/virtual/ArrayCache.h"
+#include "awkward/partition/PartitionedArray.h"
+#include "awkward/partition/IrregularlyPartitionedArray.h"
 #include "awkward/builder/ArrayBuilder.h"
+#include <map>
 #include "awkward/builder/ArrayBuilderOptions.h"
 
 using namespace awkward;
@@ -250,12 +256,98 @@ static ContentPtr parse_layout(Toks& tk) {
 }
 
 static void dump(const ContentPtr& c, std::ostream& out);
-static ContentPtr input_layout(Toks& tk) {
+
+////////////////////////////////////////////////////////////////// virtual arrays (C18)
+
+// a generator that hands out a prepared layout and counts how often it is asked
+static int64_t g_generate_calls = 0;
+static int64_t g_fail_remaining = 0;
+class CountingGenerator: public ArrayGenerator {
+public:
+  CountingGenerator(const FormPtr& form, int64_t length, const ContentPtr& content, int64_t fail_first)
+      : ArrayGenerator(form, length), content_(content), fail_first_(fail_first) { }
+  const ContentPtr generate() const override {
+    g_generate_calls++;
+    if (g_fail_remaining > 0) { g_fail_remaining--; throw std::invalid_argument("generator failed (as asked by the driver)"); }
+    return content_;
+  }
+  void caches(std::vector<ArrayCachePtr>& out) const override { }
+  const std::string tostring_part(const std::string& indent, const std::string& pre, const std::string& post) const override {
+    return indent + pre + "<CountingGenerator/>" + post;
+  }
+  const std::shared_ptr<ArrayGenerator> shallow_copy() const override {
+    return std::make_shared<CountingGenerator>(form_, length_, content_, fail_first_);
+  }
+  const std::shared_ptr<ArrayGenerator> with_form(const FormPtr& form) const override {
+    return std::make_shared<CountingGenerator>(form, length_, content_, fail_first_);
+  }
+  const std::shared_ptr<ArrayGenerator> with_length(int64_t length) const override {
+    return std::make_shared<CountingGenerator>(form_, length, content_, fail_first_);
+  }
+  bool referentially_equal(const ArrayGeneratorPtr& other) const override { return other.get() == this; }
+private:
+  ContentPtr content_;
+  int64_t fail_first_;
+};
+
+// caches: unbounded map, or one that forgets every entry after `keep` successful gets (evicts at any moment)
+class TestCache: public ArrayCache {
+public:
+  TestCache(int64_t keep): keep_(keep), gets_(0) { }
+  ContentPtr get(const std::string& key) const override {
+    auto it = map_.find(key);
+    if (it == map_.end()) return ContentPtr(nullptr);
+    if (keep_ >= 0) {
+      gets_++;
+      if (gets_ > keep_) { map_.erase(it); gets_ = 0; return ContentPtr(nullptr); }
+    }
+    return it->second;
+  }
+  void set(const std::string& key, const ContentPtr& value) override { map_[key] = value; }
+  bool is_broken() const override { return false; }
+  const std::string tostring_part(const std::string& indent, const std::string& pre, const std::string& post) const override {
+    return indent + pre + "<TestCache/>" + post;
+  }
+private:
+  int64_t keep_;
+  mutable int64_t gets_;
+  mutable std::map<std::string, ContentPtr> map_;
+};
+
+struct VirtualMode {
+  bool on;
+  int64_t cache_keep;     // -2: no cache object, -1: unbounded, k >= 0: evict after k gets
+  int64_t decl_length;    // -1: not declared, -2: declare the true length, else this number
+  int decl_form;          // 0: not declared, 1: the true form, 2: the form of some other layout
+  int64_t fail_first;     // the first n generations throw
+};
+static VirtualMode g_virtual = {false, -2, -1, 0, 0};
+
+static ContentPtr make_virtual(const ContentPtr& x) {
+  FormPtr form(nullptr);
+  if (g_virtual.decl_form == 1) form = x.get()->form(true);
+  if (g_virtual.decl_form == 2) {
+    Index64 other(1);
+    other.data()[0] = 0;
+    ContentPtr y = std::make_shared<ListOffsetArray64>(Identities::none(), util::Parameters(), other,
+                                                       std::make_shared<NumpyArray>(Index8(0)));
+    form = y.get()->form(true);
+  }
+  int64_t length = g_virtual.decl_length;
+  if (length == -2) length = x.get()->length();
+  ArrayGeneratorPtr gen = std::make_shared<CountingGenerator>(form, length, x, g_virtual.fail_first);
+  ArrayCachePtr cache(nullptr);
+  if (g_virtual.cache_keep != -2) cache = std::make_shared<TestCache>(g_virtual.cache_keep);
+  return std::make_shared<VirtualArray>(Identities::none(), util::Parameters(), gen, cache);
+}
+
+static ContentPtr input_layout(Toks& tk, bool may_wrap = true) {
   ContentPtr x = parse_layout(tk);
   g_inputs.push_back(x);
   std::ostringstream du;
   dump(x, du);
   g_before.push_back(du.str());
+  if (g_virtual.on && may_wrap) return make_virtual(x);
   return x;
 }
 
@@ -448,7 +540,7 @@ static SliceItemPtr parse_sliceitem(Toks& tk) {
   }
   if (c == "lay") {
     // an Awkward Array used as a slice: Content::asslice (strings become field lists in the binding; not driven here)
-    ContentPtr x = input_layout(tk);
+    ContentPtr x = input_layout(tk, false);
     return x.get()->asslice();
   }
   throw std::logic_error("driver: unknown slice token " + c);
@@ -465,6 +557,7 @@ static Slice parse_slice(Toks& tk) {
 ////////////////////////////////////////////////////////////////// operations
 
 static std::string g_extra;   // op-specific extra payload
+static std::string g_result_payload;   // rendering of `result` (what must survive the inputs)
 
 static ContentPtr do_reduce(const std::string& red, const ContentPtr& x, int64_t axis, bool mask, bool keepdims) {
   if (red == "sum") return x.get()->reduce(ReducerSum(), axis, mask, keepdims);
@@ -730,6 +823,88 @@ static std::string run_op(const std::string& op, Toks& tk, ContentPtr& result) {
         << (bd.first ? "True" : "False") << "," << bd.second << ")";
     return out.str();
   }
+  else if (op == "virtual") {
+    // virtual <cache_keep> <decl_length> <decl_form> <fail_first> <sub-op ...>: every input layout of the sub-operation
+    // is wrapped in a VirtualArray; payload = (value, number of generator calls)
+    g_virtual.on = true;
+    g_virtual.cache_keep = tk.i64();
+    g_virtual.decl_length = tk.i64();
+    g_virtual.decl_form = (int)tk.i64();
+    g_virtual.fail_first = tk.i64();
+    g_generate_calls = 0;
+    g_fail_remaining = g_virtual.fail_first;
+    std::string sub = tk.next();
+    std::string first;
+    if (g_virtual.fail_first > 0) {
+      // a failing generation must surface as an exception and leave nothing behind: try once, then go on
+      Toks tk2 = tk;
+      try { ContentPtr r2(nullptr); run_op(sub, tk2, r2); first = "'no-exception'"; }
+      catch (std::exception& e) { first = "'raised'"; }
+      g_fail_remaining = 0;
+      g_inputs.clear(); g_before.clear();
+    }
+    else first = "None";
+    std::string payload = run_op(sub, tk, result);
+    out << "(" << payload << "," << g_generate_calls << "," << first << ")";
+    g_virtual.on = false;
+    return out.str();
+  }
+  else if (op == "staleform") {
+    // a generation that is refused (too short for the declared length) must leave nothing behind: no inferred form
+    int64_t declared = tk.i64();
+    ContentPtr x = input_layout(tk);
+    ArrayGeneratorPtr gen = std::make_shared<CountingGenerator>(FormPtr(nullptr), declared, x, 0);
+    VirtualArray v(Identities::none(), util::Parameters(), gen, ArrayCachePtr(nullptr));
+    bool raised = false;
+    try { v.array(); } catch (std::exception& e) { raised = true; }
+    bool hasform = (gen.get()->form().get() != nullptr);
+    bool peek = (v.peek_array().get() != nullptr);
+    out << "(" << (raised ? "True" : "False") << "," << (hasform ? "True" : "False") << "," << (peek ? "True" : "False") << ")";
+    return out.str();
+  }
+  else if (op == "lazyquery") {
+    // queries that must not materialise when length and form are declared
+    ContentPtr x = input_layout(tk);
+    int64_t before = g_generate_calls;
+    int64_t n = x.get()->length();
+    int64_t d = x.get()->purelist_depth();
+    std::pair<int64_t, int64_t> mm = x.get()->minmax_depth();
+    FormPtr f = x.get()->form(false);
+    out << "(" << n << "," << d << "," << mm.first << "," << mm.second << "," << (g_generate_calls - before) << ")";
+    return out.str();
+  }
+  else if (op == "partitioned") {
+    // partitioned <k> stops... <action ...> layout : IrregularlyPartitionedArray over getitem_range pieces of the layout
+    int64_t k = tk.i64();
+    std::vector<int64_t> stops;
+    for (int64_t i = 0; i < k; i++) stops.push_back(tk.i64());
+    std::string action = tk.next();
+    std::vector<int64_t> args;
+    int64_t nargs = (action == "at") ? 1 : (action == "range" ? 3 : (action == "repartition" ? -1 : 0));
+    if (nargs == -1) { nargs = tk.i64(); }
+    std::vector<std::string> rawargs;
+    for (int64_t i = 0; i < nargs; i++) rawargs.push_back(tk.next());
+    ContentPtr x = input_layout(tk);
+    ContentPtrVec parts;
+    int64_t prev = 0;
+    for (int64_t i = 0; i < k; i++) { parts.push_back(x.get()->getitem_range_nowrap(prev, stops[(size_t)i])); prev = stops[(size_t)i]; }
+    IrregularlyPartitionedArray pa(parts, stops);
+    auto render = [&](const PartitionedArrayPtr& p) {
+      out << "([";
+      for (int64_t i = 0; i < p.get()->numpartitions(); i++) { tostr(p.get()->partition(i), out); out << ","; }
+      out << "]," << p.get()->length() << ")";
+    };
+    auto num = [&](const std::string& a) { return (a == "_") ? Slice::none() : (int64_t)strtoll(a.c_str(), nullptr, 10); };
+    if (action == "at") { tostr(pa.getitem_at(num(rawargs[0])), out); }
+    else if (action == "range") { render(pa.getitem_range(num(rawargs[0]), num(rawargs[1]), num(rawargs[2]))); }
+    else if (action == "repartition") {
+      std::vector<int64_t> ns;
+      for (auto& a : rawargs) ns.push_back(num(a));
+      render(pa.repartition(ns));
+    }
+    else throw std::logic_error("driver: unknown partitioned action " + action);
+    return out.str();
+  }
   else if (op == "builder") {
     ArrayBuilder b(ArrayBuilderOptions(tk.i64(), 1.5));
     builder_cmds(tk, b, out);
@@ -739,6 +914,7 @@ static std::string run_op(const std::string& op, Toks& tk, ContentPtr& result) {
     throw std::logic_error("driver: unknown op " + op);
   }
   tostr(result, out);
+  g_result_payload = out.str();
   return out.str();
 }
 
@@ -801,6 +977,7 @@ static void run_case(const std::string& line) {
     g_inputs.clear();
     g_before.clear();
     g_extra.clear();
+    g_result_payload.clear();
     std::string payload = run_op(op, tk, result);
     std::string validity = "-";
     bool isscalar = false;
@@ -821,7 +998,7 @@ static void run_case(const std::string& line) {
       g_inputs.clear();
       std::ostringstream again;
       tostr(result, again);
-      if (again.str() != payload) pure = 2;
+      if (again.str() != g_result_payload) pure = 2;
     }
     std::cout << id << "\tOK\t" << payload << "\t" << validity << "\t" << pure << "\t" << oneline(g_extra) << std::endl;
   }
